@@ -67,7 +67,7 @@ theorem chkLog_nil (cfg : Cfg) (req : Option Req) (st : St) : chkLog cfg req st 
 
 theorem pendOk_counters {d : RState} (h : PendOk d) {ns na : Nat} (h1 : d.nslow ≤ ns) (h2 : d.nasync ≤ na) :
     PendOk { d with nslow := ns, nasync := na } := by
-  refine ⟨h.tags, h.slots, ?_, h.minted, h.sids⟩
+  refine ⟨h.tags, h.slots, ?_, h.minted, h.sids, fun k hk => Nat.le_trans (h.relLe k hk) h1⟩
   intro p hp
   have := h.shape p hp
   cases hk : p.kind with
